@@ -25,8 +25,8 @@ class Gen:
         r = self.rng.random()
         if r < 0.02: return self.rng.choice([-9223372036854775808, 9223372036854775807, 0, -1])
         return self.nextval if r < 0.9 else -self.nextval
-    def new(self, t, kind): self.emit(f'new {t} {kind}'); self.bound[t] = {}; self.kind[t] = kind
-    def set(self, t, k): self.emit(f'set {t} {k} {self.val()}'); self.bound[t][k] = 1
+    def new(self, t, kind, managed=False): self.emit(f'{"newm" if managed else "new"} {t} {kind}'); self.bound[t] = {}; self.kind[t] = kind
+    def set(self, t, k): v = self.val(); self.emit(f'set {t} {k} {v}'); self.bound[t][k] = v
     def rem(self, t, k): self.emit(f'rem {t} {k}'); self.bound[t].pop(k, None)
     def get(self, t, k): self.emit(f'get {t} {k}')
     def mem(self, t, k): self.emit(f'mem {t} {k}')
@@ -39,18 +39,18 @@ class Gen:
     def keyorder(kind, k): return k.split(':')[0] if kind == 'S' else int(k.split(':')[0])
     def newp(self, t, kind, keys, odd=None):
         """tables[t] = new(Table, K, V, k1, v1, ...): keys may repeat; `odd` = one more argument (FormatError, t unchanged)"""
-        toks = []
-        for k in keys: toks += [k, str(self.val())]
+        toks = []; nb = {}
+        for k in keys: v = self.val(); toks += [k, str(v)]; nb[k] = v
         if odd is not None: toks.append(odd)
         self.emit(' '.join([f'newp {t} {kind}'] + toks))
-        if odd is None: self.bound[t] = {k: 1 for k in keys}; self.kind[t] = kind
+        if odd is None: self.bound[t] = nb; self.kind[t] = kind
     def assignm(self, t, kind, keys):
         """assign(tables[t], m) for a map m that is not a Table and yields these keys in this order (a key may repeat)"""
         ks = list(keys)
-        toks = []
-        for k in ks: toks += [k, str(self.val())]
+        toks = []; nb = {}
+        for k in ks: v = self.val(); toks += [k, str(v)]; nb[k] = v
         self.emit(' '.join([f'assignm {t} {kind}'] + toks))
-        self.bound[t] = {k: 1 for k in ks}; self.kind[t] = kind
+        self.bound[t] = nb; self.kind[t] = kind
     def alias(self, t, pool):
         """a `get` whose key argument lives in the table's own storage: the value object of any record (since fix bc940bb it is read
         like any other object: ValueError when it is not of the key type, else looked up), the stored key object (present or absent
@@ -58,22 +58,57 @@ class Gen:
         a key whose value is bound to itself or to another bound key"""
         rng = self.rng; b = self.bound[t]; r = rng.random()
         absent = [k for k in rng.sample(pool, min(len(pool), 6)) if k not in b]
+        if self.kind[t] == 'W' and r < 0.35: r = 0.4           # String value read as a String key: not expressible (no hash in the op file)
         if r < 0.35:
             self.emit(f'getv {t} {self.some_present(t) if (b and rng.random() < 0.8) else rng.choice(pool)}')
         elif r < 0.55:
             k = self.some_present(t) if (b and rng.random() < 0.8) else rng.choice(pool)
             self.emit(f'getk {t} {k}')
-        elif r < 0.70 and absent: self.emit(f'getv {t} {absent[0]}')
+        elif r < 0.70 and absent and self.kind[t] != 'W': self.emit(f'getv {t} {absent[0]}')
         elif self.kind[t] == 'I':
             k = rng.choice(pool)
             if abs(int(k)) >= 2**62: return
-            self.emit(f'set {t} {k} {k}'); b[k] = 1
+            self.emit(f'set {t} {k} {k}'); b[k] = int(k)
             self.emit(f'getv {t} {k}')
             if rng.random() < 0.5:
                 j = rng.choice(pool)
                 if j != k:
-                    self.emit(f'set {t} {j} {k}'); b[j] = 1
+                    self.emit(f'set {t} {j} {k}'); b[j] = int(k)
                     self.emit(f'getv {t} {j}'); self.emit(f'getk {t} {j}')
+    def own(self, t, pool):
+        """set / rem / mem / get whose argument objects live in the table's own slot array (what a user writes when updating or pruning
+        while walking): k=<key> the key object stored for a bound key, v=<key> the value object of its record, o= an outside object.
+        An object read as the other type (v= as key, k= as value) is looked up for Int -> Int tables and refused by the cast elsewhere
+        (not generated for String -> String: the op file cannot say what the text hashes to); k=/v= of an unbound key: no such object."""
+        rng = self.rng; b = self.bound[t]; kd = self.kind[t]
+        if not b: return
+        cross = kd != 'W'
+        def src(form):      # the key token a reference is built from
+            if form == 'o': return rng.choice(pool) if rng.random() < 0.6 else self.some_present(t)
+            return self.some_present(t) if rng.random() < 0.92 else rng.choice(pool)
+        def keyval(form, k):      # -> ('none' | 'err' | key token)
+            if form == 'o': return k
+            if k not in b: return 'none'
+            if form == 'k': return k
+            return str(b[k]) if kd == 'I' else 'err'
+        r = rng.random()
+        if r < 0.45:
+            kf = rng.choice('kkkoov' if cross else 'kkkoo'); vf = rng.choice('vvvvok' if cross else 'vvvvo')
+            if kf == 'o' and vf == 'o': vf = 'v'
+            ks = src(kf); kv = keyval(kf, ks)
+            if vf == 'o': vs = self.val(); vv = vs
+            else:
+                vs = src(vf)
+                vv = 'none' if vs not in b else (b[vs] if vf == 'v' else (int(vs) if kd == 'I' else 'err'))
+            self.emit(f'seta {t} {kf}={ks} {vf}={vs}')
+            if 'none' not in (kv, vv) and 'err' not in (kv, vv): b[kv] = vv
+        elif r < 0.70:
+            kf = rng.choice('kkkkov' if cross else 'kkkko'); ks = src(kf); kv = keyval(kf, ks)
+            self.emit(f'rema {t} {kf}={ks}')
+            if kv not in ('none', 'err'): b.pop(kv, None)
+        else:
+            kf = rng.choice('kkov' if cross else 'kko'); ks = src(kf)
+            self.emit(f'{rng.choice(["mema", "geta"])} {t} {kf}={ks}')
     def copy(self, d, s): self.emit(f'copy {d} {s}'); self.bound[d] = dict(self.bound[s]); self.kind[d] = self.kind[s]
     def some_present(self, t):
         b = self.bound[t]
@@ -87,6 +122,7 @@ class Gen:
         for _ in range(nops):
             b = self.bound[t]; r = rng.random()
             if rng.random() < 0.03: self.alias(t, pool); continue
+            if rng.random() < 0.04: self.own(t, pool); continue
             grow = len(b) < target
             p_new = 0.45 if grow else 0.15
             p_rem = 0.12 if grow else 0.40
@@ -164,6 +200,67 @@ def probe_pool(rng, size, mode, upto=101):
         else: h = (ident * 2654435761) % 2**64
         out.append(f'{ident}:{h}')
     return out
+
+def q_pool(rng, size, mode):
+    """keys `id:hash` of the 12-byte key type: int32 id, uint32 hash chosen adversarially (LCM < 2^23: up to 600 multiples fit)"""
+    base = rng.randrange(1, 1000); out = []
+    for i in range(size):
+        ident = base + i
+        if mode == 'const': h = 7
+        elif mode == 'end': h = LCM * (1 + ident % 5) - 1 - (ident % 2)
+        elif mode == 'adjacent': h = LCM * (ident % 7) + (ident % 3)
+        else: h = (ident * 2654435761) % 2**32
+        out.append(f'{ident}:{h}')
+    return out
+
+def own_case(rng, kind, pool, managed):
+    """update and prune WHILE WALKING, with the objects the table hands out: fill to the last item count before a growth, then
+    set(t, newkey, v_of_present) (growth with a value object of the old array as the source), set(t, p, v) for every stored key
+    object p with value objects v of other records (replace in place: the record of p is destructed and rewritten), for Int -> Int also
+    the value object read as a key (a new key inserted under its own argument), then mem / rem with the stored key objects down through
+    the shrinking sizes; iteration and len in between"""
+    g = Gen(rng); t = rng.randrange(NT); g.new(t, kind, managed)
+    p = rng.choice([5, 11, 23, 53]); lo, hi = SLOT_RANGE[p]
+    pool = list(dict.fromkeys(pool))
+    fresh = [k for k in pool]
+    rng.shuffle(fresh)
+    while len(g.bound[t]) < hi and fresh: g.set(t, fresh.pop())
+    b = g.bound[t]
+    def pres(): return rng.choice(list(b.keys()))
+    # growth under a value object of the old array (and under a stored key object read as a value, Int -> Int)
+    if fresh:
+        nk = fresh.pop(); vs = pres(); g.emit(f'seta {t} o={nk} v={vs}'); b[nk] = b[vs]
+    g.emit(f'len {t}')
+    if kind == 'I' and rng.random() < 0.7:
+        ks = pres(); vs = pres(); g.emit(f'seta {t} v={ks} k={vs}'); b[str(b[ks])] = int(vs)
+    # update while walking
+    for x in list(b.keys()):
+        y = pres(); g.emit(f'seta {t} k={x} v={y}'); b[x] = b[y]
+        if rng.random() < 0.3: g.emit(f'geta {t} k={x}')
+        if rng.random() < 0.15: g.emit(f'seta {t} k={x} v={x}')            # both objects in one record
+        if rng.random() < 0.15: v = g.val(); g.emit(f'seta {t} k={x} o={v}'); b[x] = v
+    if rng.random() < 0.5: g.emit('gc')
+    g.emit(rng.choice([f'iter {t}', f'riter {t}']))
+    if kind == 'I':
+        for x in rng.sample(list(b.keys()), min(4, len(b))):
+            if x not in b: continue
+            y = pres(); g.emit(f'seta {t} v={x} v={y}'); b[str(b[x])] = b[y]      # value object as key: insertion moves its own record
+            g.emit(f'mema {t} v={x}')
+            if rng.random() < 0.5:
+                kx = str(b[x]); g.emit(f'rema {t} v={x}'); b.pop(kx, None)
+    else:
+        x = pres(); g.emit(f'seta {t} v={x} v={x}' if kind != 'W' else f'seta {t} k={x} v={x}'); g.emit(f'rema {t} v={x}' if kind != 'W' else f'mema {t} k={x}')
+    # prune while walking, down through the shrinking sizes
+    ks = list(b.keys()); rng.shuffle(ks)
+    for i, x in enumerate(ks):
+        if x not in b: continue
+        if rng.random() < 0.4: g.emit(f'mema {t} k={x}')
+        g.emit(f'rema {t} k={x}'); b.pop(x, None)
+        if rng.random() < 0.1: g.emit(f'rema {t} k={x}'); g.emit(f'seta {t} k={x} o=1')      # the object is gone: nothing is called
+        if len(b) in (1, 4, 9, 20): g.emit(f'iter {t}')
+    g.emit(f'len {t}'); g.emit(f'check {t}')
+    g.churn(t, pool, 30, 6)
+    return g.lines
 
 _string_cache = {}
 def string_pool(rng, hexe):
@@ -345,16 +442,20 @@ class C02(Spec):
     id = 'C02'; engine = 'table'; harness = 'h_table'; driver = 'drv_table'
     generators = ('Table', 'Cmp', 'Hash')      # Cmp: `eq` + Int_Cmp, Hash: hash_data, Table: also the text of String_Cmp — the Int / String key instances (C02_int_keys, C02_string_keys)
     harness_timeout = 600
-    # Table_Get's "is the key inside my own storage" test computes `(char*)t->data + t->nslots * step` with data == NULL and
-    # nslots == 0 on a cleared table: NULL + 0, flagged by UBSan's pointer-overflow check in C mode although the result is only
-    # compared and no platform misbehaves on it (same decision as C12). That one check is switched off; reported to the coordinator.
+    # Table_Get's "is the key inside my own storage" test (Table.c:524) is address arithmetic outside ISO C by construction: it compares
+    # `key` with `t->data` by `>=` / `<` although the two usually point into different objects (C11 6.5.8p5: undefined), and on a cleared
+    # table (data == NULL, nslots == 0) it computes NULL + 0 (6.5.6p8: undefined in C, defined in C++).  UBSan's pointer-overflow check
+    # flags only the second in C mode; on a flat address space both are plain integer comparisons, no supported platform misbehaves, and the
+    # outcome (test false, fall through to the probing loop / KeyError) is what the model has.  Decision, stated in `assumptions` and
+    # `trusted_base` (audit 2, item 5): that one check is switched off, the flat-address-space reading is an explicit assumption, and the
+    # two-line guard `t->nslots isnt 0 and` in front of the test is proposed to the coordinator (same decision as C12).
     harness_flags = ('-fno-sanitize=pointer-overflow',)
     technique = ('Lean 4 proof: the robin-hood model of Table.c (insert with displacement and in-place update, backward-shift removal, '
                  'rehash as a fold, resize, assign/copy incl. self-assignment, constructor with pairs, assign from another kind of map, the address '
-                 'test of Table_Get) refines an association list for every hash function and every history, by a local '
+                 'test of Table_Get, set/rem/mem/get given the table\'s own stored key and value objects) refines an association list for every hash function and every history, by a local '
                  'slot-array invariant; source-derived parameters (prime table, load factor, tie rule, empty-table guard, self-assignment guard, '
-                 'probe arithmetic, eq/Int_Cmp/hash_data and the text of String_Cmp for the Int and String key classes) '
-                 'regenerated each run; white-box differential check of the whole slot array against the real Table after every operation')
+                 'probe arithmetic, eq/Int_Cmp/hash_data and the text of String_Cmp for the Int and String key classes, the bodies of the hand-mirrored '
+                 'functions pinned per function group) regenerated each run; white-box differential check of the whole slot array against the real Table after every operation')
     level_text = ('Theorem C02_refines_map: for every hash function, every key type with decidable equality and every history of '
                   'new/set/rem/get/mem/len/iterate/resize/assign/copy over several tables (assign(t, t) included; new with initial pairs and assign '
                   'from a map that is not a Table included), the model of src/Table.c never fails and its observations are those of an association-list specification, with the slot-array invariant '
@@ -364,6 +465,10 @@ class C02(Spec):
                   'is strcmp on the two buffers) for the text that is in src/String.c now. get with ANY key object — outside the table, the stored key object of a '
                   'record (iteration), the value object of a record, an address in an empty record — agrees with the map (C02_get_mem_agree, no `outside` '
                   'hypothesis since fix bc940bb; the OLD address test is refuted as an explicit variant). '
+                  'C02_refines_map_own_objects: the same refinement for histories in which the key argument of set/rem/mem/get and the value argument of set are the key object the table '
+                  'itself stores for a key (what foreach hands out) or the value object of one of its records (what get returned) — update and prune while walking, growth under the table\'s own value object. '
+                  'C02_last_set_wins (no restriction on the history any more): get answers what lastBinding computes from the operation list alone, through assign, copy, constructor pairs and assignment from another map. '
+                  'C02_source_as_modelled_*: the bodies of Table_Set_Move, Table_Rehash, Table_Rem, Table_Mem/Get, Table_Clear/Resize/Len and the four iterator functions equal the texts the model was written against. '
                   'The parameters a source change can flip (Table_Primes, load factor, `j > p`, the nslots = 0 guard, the self-assignment guard, Table_Probe) are regenerated '
                   'from /repo on every run and the theorems are re-checked against them; the model is tied to the real Table by comparing the '
                   'complete slot array, nitems and nslots after every operation of thousands of adversarial histories (keys colliding at every '
@@ -384,16 +489,24 @@ class C02(Spec):
             'plus a control group whose homes never meet; probe ids equal modulo 2^8/2^16/2^32 under a two-valued hash; (d) resize(0) then use, reserve then '
             'fill, refused shrink, assign (one in five: assign(t, t)) and copy between tables of different kinds, new with 0-30 initial pairs (keys '
             'repeat, odd argument count), assign from a probe map type that is not a Table; in all phases 3% of the ops are gets whose key object lives '
-            'in the table (getk: stored key object; getv: value object of any record); (e) larger tables (window dumps + checksums); '
+            'in the table (getk: stored key object; getv: value object of any record) and 4% are seta/rema/mema/geta: set/rem/mem/get whose key argument (and for set the value argument) is '
+            'the stored key object k=<key> or the value object v=<key> of a record of the same table (an object read as the other type: looked up for Int -> Int, ValueError elsewhere; not generated for '
+            'String -> String), or an outside object; (d\') per kind a directed update-and-prune-while-walking case: fill to the last item count before a growth, set(t, newkey, v_of_present), '
+            'set(t, p, v) for every stored key object, value objects as keys (Int -> Int), mem/rem with the stored key objects down through the shrinking sizes; table kinds I Int->Int, S String->Int, '
+            'P PKey->PVal (24/16 bytes), V Int->String and W String->String (values that own memory), J Int->PVal (ksize < vsize), Q a 12-byte key type (Table_Size_Round); 30-40% of the tables '
+            'are collector-managed (newm, copy) with forced collections (gc) between operations; (e) larger tables (window dumps + checksums); '
             '(f) Table_Ideal_Size on ranges. non-trivial observation = the dump shows an entry away from its home slot, or the op raised '
             'KeyError/FormatError, or it rehashed; distinct = distinct text of (op, observation line).')
     trusted_base = ('translate/g_table.py generator Table (regex over src/Table.c)',
                     'harness/h_table.c + lean/Driver/Table.lean (correspondence is testing)',
-                    'hash(), eq(), assign(), destruct() of the element types are functions of the value (C05/C09/C10)')
+                    'hash(), eq(), assign(), destruct() of the element types are functions of the value (C05/C09/C10)',
+                    'flat address space: the address test of Table_Get (relational comparison of unrelated pointers, NULL + 0 on a cleared table) behaves as on integer addresses; '
+                    'UBSan pointer-overflow check off for the harness')
     assumptions = ('one hash value per key (hash is a function of the key, eq keys hash equally: C10)',
                    'key equality is decided by eq() over the comparison the key type registers and IS equality of the value: proved from the translated eq/Int_Cmp for Int; '
                    'for String it is the explicit assumption StringCmpIsStrcmp (String_Cmp = strcmp of the two buffers), checked against the source text on every run',
-                   'fewer than 2^63 items; no pointer into the slot array is used after a mutation of the table',
+                   'fewer than 2^63 items; no pointer into the slot array is used after the call that mutates the table returns (argument objects of the call itself may live in the slot array: C02_refines_map_own_objects)',
+                   'pointers are compared and offset as integer addresses (Table_Get address test: see trusted_base); String -> String tables: a value object is not passed as a key argument (the op file cannot carry its hash)',
                    'single thread; allocation does not fail')
 
     def _hexe(self):
@@ -458,15 +571,26 @@ class C02(Spec):
                     if len(nt['by_mod'][p]) >= 4: cs.append(Case(f'near{rep}_{p}', near_case(rng, nt, p)))
                 if len(nt['by_mod'][5 * 11 * 23]) >= 4: cs.append(Case(f'neargrow{rep}', near_growth_case(rng, nt)))
             if nt['control']: cs.append(Case('nearcontrol', near_control_case(rng, nt)))
+        # (c'') argument objects of the table's own: update / prune while walking, every kind (values that own memory: V, W; ksize < vsize: J;
+        #       a 12-byte key type: Q; collector-managed tables with a collection in between)
+        for rep in range(reps):
+            spool = string_pool(rng, hexe)
+            for kind in 'IVJPQ' + ('SW' if spool else ''):
+                pool = (int_pool(rng, 90, 101, rng.sample([0, 1, LCM - 1, -3], 2)) if kind in 'IVJ' else
+                        probe_pool(rng, 90, rng.choice(['const', 'end', 'adjacent', 'mult'])) if kind == 'P' else
+                        q_pool(rng, 90, rng.choice(['const', 'end', 'adjacent', 'mult'])) if kind == 'Q' else spool[:90])
+                cs.append(Case(f'own{rep}_{kind}', own_case(rng, kind, pool, managed=rng.random() < 0.4)))
         # (d) resize / assign / copy across tables
         for rep in range(reps * 2):
             g = Gen(rng)
-            kinds = [rng.choice('IIP') for _ in range(NT)]
-            pools = {'I': int_pool(rng, 60, 101, [rng.choice([0, 1, LCM - 1])]), 'P': probe_pool(rng, 60, rng.choice(['const', 'end', 'adjacent']))}
+            kinds = [rng.choice('IIPPVJQ') for _ in range(NT)]
+            pools = {'I': int_pool(rng, 60, 101, [rng.choice([0, 1, LCM - 1])]), 'P': probe_pool(rng, 60, rng.choice(['const', 'end', 'adjacent'])),
+                     'Q': q_pool(rng, 60, rng.choice(['const', 'end', 'adjacent']))}
+            pools['V'] = pools['J'] = pools['I']
             spool = string_pool(rng, hexe)
             if spool:
-                pools['S'] = spool[:80]; kinds[rng.randrange(NT)] = 'S'
-            for t in range(NT): g.new(t, kinds[t])
+                pools['S'] = pools['W'] = spool[:80]; kinds[rng.randrange(NT)] = 'S'; kinds[rng.randrange(NT)] = 'W'
+            for t in range(NT): g.new(t, kinds[t], managed=rng.random() < 0.3)
             for _ in range(60 if quick else 200):
                 t = rng.randrange(NT); r = rng.random(); n = len(g.bound[t])
                 pool = pools[g.kind[t]]
@@ -492,7 +616,8 @@ class C02(Spec):
                     kd = rng.choice(list(pools.keys())); pl = pools[kd]
                     n = rng.choice([0, 1, 3, 4, 5, 9, 10, 25, 30])
                     g.assignm(t, kd, rng.sample(pl, min(len(pl), n)) if rng.random() < 0.8 else [rng.choice(pl[:max(3, n // 2)]) for _ in range(n)])
-                elif r < 0.95: g.new(t, rng.choice(list(pools.keys())))
+                elif r < 0.95: g.new(t, rng.choice(list(pools.keys())), managed=rng.random() < 0.3)
+                elif r < 0.97: g.emit('gc')
                 else: g.emit(f'check {t}')
             cs.append(Case(f'multi{rep}', g.lines))
         # (e) larger tables: window dumps + checksums
